@@ -60,6 +60,13 @@ fn run(input: RunInput) -> ScenFuture {
 
         let off_a = w.param("dial_offset_a_us", 0, 40_000) as u64;
         let off_b = w.param("dial_offset_b_us", 0, 40_000) as u64;
+        // "never on arrival order": a dial-back that comes seconds later follows the same rule
+        let (off_a, off_b) = if w.flag("late_dial_back", 0.2) {
+            let late = w.param("late_by_ms", 200, 12_000) as u64 * 1000;
+            if w.flag("late_side_is_a", 0.5) { (off_a + late, off_b) } else { (off_a, off_b + late) }
+        } else {
+            (off_a, off_b)
+        };
         let with_id = w.flag("dial_with_peer_id", 0.5);
 
         let fa = async {
